@@ -50,7 +50,17 @@ Docs ==
    \* two resources of identical layout whose Description texts differ: cut into two files, the texts lie at the same byte offsets
    d7 |-> << D("JSIGHT", <<"0.3">>, FALSE, "", ""),
              D("GET", <<"pa">>, FALSE, "", ""), D("Description", <<>>, FALSE, "d1", ""), D("RESP", <<"any">>, FALSE, "", "200"),
-             D("GET", <<"pb">>, FALSE, "", ""), D("Description", <<>>, FALSE, "d2", ""), D("RESP", <<"any">>, FALSE, "", "200") >>]
+             D("GET", <<"pb">>, FALSE, "", ""), D("Description", <<>>, FALSE, "d2", ""), D("RESP", <<"any">>, FALSE, "", "200") >>,
+   \* two user types that refer to each other; the one declared first has an example that breaks its own rule (a rule error of the
+   \* build phase found while the types are compiled with their dependencies): same message and place in every split
+   d8 |-> << D("JSIGHT", <<"0.3">>, FALSE, "", ""),
+             D("TYPE", <<"@order">>, FALSE, "ordbad", ""), D("TYPE", <<"@item">>, FALSE, "itemopt", ""),
+             D("GET", <<"pa">>, FALSE, "", ""), D("RESP", <<"@order">>, FALSE, "", "200") >>,
+   \* Headers given by a reference to a user type that is not an object (found by validateCatalog, located on the Headers body)
+   d9 |-> << D("JSIGHT", <<"0.3">>, FALSE, "", ""),
+             D("TYPE", <<"@tarr">>, FALSE, "arr", ""),
+             D("GET", <<"pa">>, FALSE, "", ""), D("RESP", <<"any">>, FALSE, "", "200"), D("Headers", <<>>, FALSE, "reftarr", ""),
+             D("GET", <<"pb">>, FALSE, "", ""), D("RESP", <<"any">>, FALSE, "", "200") >>]
              \* a method with its Path child, written identically under two resources: legal reuse of one piece
 
 FileNames == <<"a.jst", "b.jst", "c.jst">>
